@@ -190,3 +190,49 @@ example :
   decide
 
 end C01
+
+namespace C01
+
+/-- (1-D, a) `array_1d_slim_from` lists the unmasked entries in increasing index order -/
+theorem slim1d_lists_unmasked (mask : List Bool) (a : List α) (zero : α) :
+    Impl.slim1dFrom mask a zero
+      = ((List.range mask.length).filter fun x => !mask.getD x true).map fun x => a.getD x zero := by
+  rw [slim1dFrom_eq, nativeForSlim1d_eq]
+
+/-- (1-D, c1) slim → native → slim is the identity -/
+theorem roundtrip_1d_slim (mask : List Bool) (s : List α) (zero : α)
+    (hs : s.length = (Impl.nativeForSlim1d mask).length) :
+    Impl.slim1dFrom mask (Impl.native1dFrom mask s zero) zero = s := by
+  rw [slim1dFrom_eq]
+  apply List.ext_getElem
+  · simp [hs]
+  · intro k h1 h2
+    have hk : k < (Impl.nativeForSlim1d mask).length := by simpa using h1
+    simp only [List.getElem_map, List.getD_eq_getElem?_getD, native1dFrom_hit mask s zero k hk,
+      Option.getD_some, List.getElem?_eq_getElem h2]
+
+/-- (1-D, c2) native → slim → native returns the native values with masked positions zeroed -/
+theorem roundtrip_1d_native (mask : List Bool) (a : List α) (zero : α) :
+    Impl.native1dFrom mask (Impl.slim1dFrom mask a zero) zero
+      = (List.range mask.length).map fun x => if mask.getD x true then zero else a.getD x zero := by
+  apply List.ext_getElem?
+  intro j
+  by_cases hj : j < mask.length
+  · cases hm : mask.getD j true with
+    | true =>
+      rw [native1dFrom_masked mask _ zero j hj hm]
+      have hm' : mask[j] = true := by simpa [List.getD_eq_getElem?_getD, hj] using hm
+      simp [hj, hm']
+    | false =>
+      have hmem : j ∈ Impl.nativeForSlim1d mask := mem_nativeForSlim1d.mpr ⟨hj, hm⟩
+      obtain ⟨k, hk, hkeq⟩ := List.getElem_of_mem hmem
+      have := native1dFrom_hit mask (Impl.slim1dFrom mask a zero) zero k hk
+      rw [hkeq] at this
+      rw [this, slim1dFrom_eq]
+      have hm' : mask[j] = false := by simpa [List.getD_eq_getElem?_getD, hj] using hm
+      simp [hj, hm', hk, hkeq]
+  · have h1 : (Impl.native1dFrom mask (Impl.slim1dFrom mask a zero) zero).length ≤ j := by
+      rw [native1dFrom_length]; omega
+    rw [List.getElem?_eq_none h1, List.getElem?_eq_none (by simp; omega)]
+
+end C01
